@@ -556,4 +556,100 @@ theorem IP_reencode (t : IP) (h p pad : Bytes) (hlen : h.length = 20) (h0 : fld 
   rw [slice_cat h 10 12 20 (by omega) (by omega), slice_cat h 0 10 20 (by omega) (by omega)]
   simp [slice, List.take_of_length_le (show h.length ≤ 20 by omega)]
 
+/-! ### UDP -/
+
+def UDP_WF (s : UDP) : Prop := s.srcport < 65536 ∧ s.dstport < 65536 ∧ s.payload.length + 8 < 65536
+
+def udpBytes (s : UDP) : Bytes :=
+  encInt true 2 s.srcport ++ (encInt true 2 s.dstport ++ (encInt true 2 (s.payload.length + 8) ++ (encInt true 2 0 ++ s.payload)))
+
+theorem UDP_pack_eq (s : UDP) (h : UDP_WF s) :
+    UDP.pack s = ({ s with len := s.payload.length + 8 }, .ok (udpBytes s)) := by
+  obtain ⟨h1, h2, h3⟩ := h
+  have hm : (s.payload.length + 8) % 65536 = s.payload.length + 8 := by omega
+  have hf : Fits UDP_HEADER_FORMAT.codes [s.srcport, s.dstport, s.payload.length + 8, 0] := by
+    simp [Fits, UDP_HEADER_FORMAT, Code.bound]; omega
+  simp only [UDP.pack, UDP_HEADER_SIZE, hm, structPack_eq _ _ hf]
+  simp [UDP_HEADER_FORMAT, encCodes, Code.size, udpBytes]
+
+theorem UDP_unpack_packed (s t : UDP) (h : UDP_WF s) :
+    UDP.unpack t (udpBytes s) = ({ s with len := s.payload.length + 8 }, .ok ()) := by
+  obtain ⟨h1, h2, h3⟩ := h
+  have hf : Fits UDP_HEADER_FORMAT.codes [s.srcport, s.dstport, s.payload.length + 8, 0] := by
+    simp [Fits, UDP_HEADER_FORMAT, Code.bound]; omega
+  have hb : udpBytes s = encCodes UDP_HEADER_FORMAT.big UDP_HEADER_FORMAT.codes
+      [s.srcport, s.dstport, s.payload.length + 8, 0] ++ s.payload := by
+    simp [UDP_HEADER_FORMAT, encCodes, Code.size, udpBytes]
+  have hl : ¬ (udpBytes s).length < 8 := by simp [udpBytes]; omega
+  have hd : List.drop 8 (udpBytes s) = s.payload := by
+    rw [hb]; exact drop_append_len _ _ _ (by rw [encCodes_length _ _ _ hf]; rfl)
+  simp only [UDP.unpack, UDP_HEADER_SIZE, hl, if_false, hd]
+  rw [hb, structUnpackFrom_enc0 _ _ _ hf]
+
+/-! ### ARP -/
+
+def ARP_WF (s : ARP) (sip dip : Nat) : Prop :=
+  s.srcip = some sip ∧ s.dstip = some dip ∧ sip < 2 ^ 32 ∧ dip < 2 ^ 32 ∧
+  s.hardware_type < 65536 ∧ s.protocol_type < 65536 ∧ s.hardware_length < 256 ∧ s.protocol_length < 256 ∧
+  s.operation < 65536 ∧ s.srcmac < 2 ^ 48 ∧ s.dstmac < 2 ^ 48
+
+def arpBytes (s : ARP) (sip dip : Nat) : Bytes :=
+  encInt true 2 s.hardware_type ++ (encInt true 2 s.protocol_type ++ (encInt true 1 s.hardware_length ++
+  (encInt true 1 s.protocol_length ++ (encInt true 2 s.operation ++ (beBytes 6 s.srcmac ++ (beBytes 4 sip ++
+  (beBytes 6 s.dstmac ++ beBytes 4 dip)))))))
+
+theorem arpBytes_length (s : ARP) (a b : Nat) : (arpBytes s a b).length = 28 := by simp [arpBytes]
+
+theorem ARP_pack_eq (s : ARP) (sip dip : Nat) (h : ARP_WF s sip dip) : ARP.pack s = (s, .ok (arpBytes s sip dip)) := by
+  obtain ⟨hs, hd, h1, h2, h3, h4, h5, h6, h7, h8, h9⟩ := h
+  have hf : Fits ARP_pack_fmt0.codes [s.hardware_type, s.protocol_type, s.hardware_length, s.protocol_length,
+      s.operation] := by
+    simp [Fits, ARP_pack_fmt0, Code.bound]; omega
+  simp only [ARP.pack, structPack_eq _ _ hf, pack48_eq _ h8, pack48_eq _ h9, hs, hd, inetAton]
+  simp [ARP_pack_fmt0, encCodes, Code.size, arpBytes]
+
+theorem ARP_unpack_eq (t : ARP) (buf : Bytes) (h : 28 ≤ buf.length) :
+    ARP.unpack t buf =
+      ({ hardware_type := fld buf 0 2, protocol_type := fld buf 2 4, hardware_length := fld buf 4 5,
+         protocol_length := fld buf 5 6, operation := fld buf 6 8, srcmac := fld buf 8 14,
+         dstmac := fld buf 18 24, srcip := some (fld buf 14 18), dstip := some (fld buf 24 28) }, .ok ()) := by
+  have h0 : structUnpackFrom ARP_unpack_fmt0 buf 0 =
+      .ok [fld buf 0 2, fld buf 2 4, fld buf 4 5, fld buf 5 6, fld buf 6 8] := by
+    have : 2 + (2 + (1 + (1 + (2 + 0)))) ≤ buf.length := by omega
+    simp only [structUnpackFrom, ARP_unpack_fmt0, Fmt.size, codesSize, Code.size, Nat.zero_add, this, if_true,
+      List.drop_zero, unpackCodes, List.drop_drop, decInt, take_eq_slice0, slice_drop, Nat.reduceAdd, fld]
+  have e1 : unpack48 (slice buf 8 14) = .ok (fld buf 8 14) := unpack48_eq _ (by simp; omega)
+  have e2 : unpack48 (slice buf 18 24) = .ok (fld buf 18 24) := unpack48_eq _ (by simp; omega)
+  have e3 : inetNtoa (slice buf 14 18) = .ok (fld buf 14 18) := by
+    have : (slice buf 14 18).length = 4 := by simp; omega
+    simp [inetNtoa, this, fld]
+  have e4 : inetNtoa (slice buf 24 28) = .ok (fld buf 24 28) := by
+    have : (slice buf 24 28).length = 4 := by simp; omega
+    simp [inetNtoa, this, fld]
+  simp only [ARP.unpack, h0, e1, e2, e3, e4]
+
+theorem ARP_unpack_packed (s t : ARP) (sip dip : Nat) (h : ARP_WF s sip dip) :
+    ARP.unpack t (arpBytes s sip dip) = (s, .ok ()) := by
+  obtain ⟨hs, hd, h1, h2, h3, h4, h5, h6, h7, h8, h9⟩ := h
+  rw [ARP_unpack_eq _ _ (by rw [arpBytes_length]; omega)]
+  have f0 : fld (arpBytes s sip dip) 0 2 = s.hardware_type := by
+    simp [fld, arpBytes, slice_prefix, encInt, beNat_beBytes_of_lt 2 _ (show s.hardware_type < 256 ^ 2 by omega)]
+  have f2 : fld (arpBytes s sip dip) 2 4 = s.protocol_type := by
+    simp [fld, arpBytes, slice_skip, slice_prefix, encInt, beNat_beBytes_of_lt 2 _ (show s.protocol_type < 256 ^ 2 by omega)]
+  have f4 : fld (arpBytes s sip dip) 4 5 = s.hardware_length := by
+    simp [fld, arpBytes, slice_skip, slice_prefix, encInt, beNat_beBytes_of_lt 1 _ (show s.hardware_length < 256 ^ 1 by omega)]
+  have f5 : fld (arpBytes s sip dip) 5 6 = s.protocol_length := by
+    simp [fld, arpBytes, slice_skip, slice_prefix, encInt, beNat_beBytes_of_lt 1 _ (show s.protocol_length < 256 ^ 1 by omega)]
+  have f6 : fld (arpBytes s sip dip) 6 8 = s.operation := by
+    simp [fld, arpBytes, slice_skip, slice_prefix, encInt, beNat_beBytes_of_lt 2 _ (show s.operation < 256 ^ 2 by omega)]
+  have f8 : fld (arpBytes s sip dip) 8 14 = s.srcmac := by
+    simp [fld, arpBytes, slice_skip, slice_prefix, beNat_beBytes_of_lt 6 _ (show s.srcmac < 256 ^ 6 by omega)]
+  have f14 : fld (arpBytes s sip dip) 14 18 = sip := by
+    simp [fld, arpBytes, slice_skip, slice_prefix, beNat_beBytes_of_lt 4 _ (show sip < 256 ^ 4 by omega)]
+  have f18 : fld (arpBytes s sip dip) 18 24 = s.dstmac := by
+    simp [fld, arpBytes, slice_skip, slice_prefix, beNat_beBytes_of_lt 6 _ (show s.dstmac < 256 ^ 6 by omega)]
+  have f24 : fld (arpBytes s sip dip) 24 28 = dip := by
+    simp [fld, arpBytes, slice_skip, slice_all, beNat_beBytes_of_lt 4 _ (show dip < 256 ^ 4 by omega)]
+  simp only [f0, f2, f4, f5, f6, f8, f14, f18, f24, ← hs, ← hd]
+
 end Acra.Lemmas.Net
